@@ -10,9 +10,9 @@ CONSTANTS W, Th, Dl,       \* the policy under test (scaled)
           TMax, NMax,      \* time grid, bound on the failure count explored
           Exps             \* admin expiry times tried
 P == [w |-> W, th |-> Th, dl |-> Dl]
-\* scaled policies (cfg: Th <- ThPw ...): password-like 1s/2s/3s then cap at 5; totp-like cap at 3
-ThPw == <<2, 3, 5>>
-DlPw == <<1, 2, 3>>
+\* scaled policies (cfg: Th <- ThPw ...): password-like 1s,1s,2s then cap at 4; totp-like cap at 3
+ThPw == <<2, 3, 4>>
+DlPw == <<1, 1, 2>>
 ThTotp == <<3>>
 DlTotp == <<1>>
 
@@ -31,17 +31,17 @@ Bump(ct) == IF wc.w = WindowEnd(P, ct) THEN [wc EXCEPT !.c = @ + 1] ELSE [w |-> 
 TimeStep(ct, exp) ==
   /\ st' = L2Time(st, ct, exp)
   /\ ev' = [e |-> "time", ct |-> ct, exp |-> exp, res |-> "", wrong |-> 0]
-  /\ wc' = wc /\ free' = (free /\ exp = None)
+  /\ free' = (free /\ exp = None) /\ wc' = IF free' THEN wc ELSE [w |-> 0, c |-> 0]
 RawFail(ct) ==
   /\ st' = L2Fail(P, st, ct)
   /\ ev' = [e |-> "fail", ct |-> ct, exp |-> None, res |-> "", wrong |-> 0]
-  /\ wc' = wc /\ free' = FALSE
+  /\ wc' = [w |-> 0, c |-> 0] /\ free' = FALSE
 Attempt(ct, exp, wrong) ==
   LET a == L2Attempt(P, st, ct, exp, wrong) IN
   /\ st' = a[2]
   /\ ev' = [e |-> "attempt", ct |-> ct, exp |-> exp, res |-> a[1], wrong |-> wrong]
-  /\ wc' = IF a[1] = "fail" THEN Bump(ct) ELSE wc
   /\ free' = (free /\ exp = None)
+  /\ wc' = IF ~free' THEN [w |-> 0, c |-> 0] ELSE IF a[1] = "fail" THEN Bump(ct) ELSE wc
 
 Next == \E ct \in now..TMax :
           /\ now' = ct
